@@ -182,9 +182,13 @@ NewSettle(cfg, obs) == cfg.kind = "New" => ~(obs.quiet /\ (obs.cancelled \/ obs.
 \* (the clean end of stream after close-by-sender is Complete + Settle1 + NoPanic)
 
 (* ==================================================================================== C11 Unfold / Emit *)
-RECURSIVE UnfoldSeq(_,_,_,_)
-\* the first n values of seed, f(seed), ...; under Lift the stream ends with the first seed on which f fails
-UnfoldSeq(step, fail, s, n) == IF n = 0 THEN <<>> ELSE IF s \in fail THEN <<s>> ELSE <<s>> \o UnfoldSeq(step, fail, StepFn(step, s), n - 1)
+RECURSIVE UnfoldSeq(_,_,_,_,_)
+\* the first n values of seed, f(seed), ...; a failing step of the harness returns (seed + 100, error): under Lift the stream
+\* ends with the seed on which f failed, under Try it goes on from the returned value (no gap, no repeat)
+UnfoldSeq(step, mode, fail, s, n) ==
+  IF n = 0 THEN <<>> ELSE
+  IF mode # "pure" /\ s \in fail THEN (IF mode = "lift" THEN <<s>> ELSE <<s>> \o UnfoldSeq(step, mode, fail, s + 100, n - 1))
+  ELSE <<s>> \o UnfoldSeq(step, mode, fail, StepFn(step, s), n - 1)
 RECURSIVE EmitIdx(_,_,_,_)
 \* indices 0.. whose value is delivered: the non-failing ones (Try), or those before the first failure (Lift)
 EmitIdx(cfg, i, n, lim) == IF n = 0 \/ i > lim THEN <<>> ELSE
@@ -192,7 +196,8 @@ EmitIdx(cfg, i, n, lim) == IF n = 0 \/ i > lim THEN <<>> ELSE
                            ELSE <<i>> \o EmitIdx(cfg, i + 1, n - 1, lim)
 EmitLim(obs) == Len(obs.calls) + 1
 GenExact(cfg, obs) ==
-  /\ cfg.kind = "Unfold" => obs.got["out"] = UnfoldSeq(cfg.step, IF cfg.mode = "lift" THEN cfg.fail ELSE {}, cfg.seed, Len(obs.got["out"]))
+  /\ cfg.kind = "Unfold" => /\ obs.got["out"] = UnfoldSeq(cfg.step, cfg.mode, cfg.fail, cfg.seed, Len(obs.got["out"]))
+                             /\ ("exx" \in obs.outs => IsPrefix(obs.got["exx"], Errs(cfg, UnfoldSeq(cfg.step, cfg.mode, cfg.fail, cfg.seed, Len(obs.calls)))))
   /\ cfg.kind = "Emit" =>
        LET idx == EmitIdx(cfg, 0, Len(obs.got["out"]), EmitLim(obs)) IN
        /\ obs.got["out"] = [j \in 1..Len(idx) |-> EmitVal(idx[j])]
